@@ -627,7 +627,7 @@ fn drive(ctx: &Ctx, rep: &mut Report, prop: &str, harnesses: Vec<Harness>) {
     let mut samples = Vec::new();
     for (idx, h) in harnesses.iter().enumerate() {
         if !ctx.mine(idx as u64) { continue }
-        let cfg = SchedConfig { bound: h.bound, max_steps: 5000, max_execs: 3_000_000, workers: 4 };
+        let cfg = SchedConfig { bound: h.bound, max_steps: 5000, max_execs: 600_000, workers: 4 };
         let stats = sched::explore(&cfg, |s| (h.body)(s));
         rep.transitions += stats.steps;
         rep.traces += stats.executions;
